@@ -98,8 +98,8 @@ def load_db(repo):
 # x86: database form -> queries
 # ------------------------------------------------------------------------------------------------------------------------------
 
-def eligible(f):
-    if f["privilege"] != "L3" or f["control"] != "none" or f["arch"] == "X86":
+def eligible(f, mode="x64"):
+    if f["privilege"] != "L3" or f["control"] != "none" or f["arch"] == ("X86" if mode == "x64" else "X64"):
         return False
     if any(o["rel"] for o in f["ops"]):
         return False
@@ -121,10 +121,16 @@ def op_choices(o):
 
 
 class Pools:
-    def __init__(self, form, same, rng=None):
-        hi = any(o["regType"] == "r8hi" for o in form["ops"])
+    def __init__(self, form, same, rng=None, mode="x64"):
+        hi = any(o["regType"] == "r8hi" for o in form["ops"]) or mode == "x86"
         self.pools = {"gp": [1, 2, 3] if hi else [8, 9, 10, 11, 12, 13], "vec": [1, 2, 3, 4, 5, 6], "k": [2, 4, 6, 5], "mm": [1, 2, 3, 4],
                       "st": [1, 2, 3], "bnd": [1, 2, 3], "sreg": [1, 3, 4], "creg": [2, 3], "dreg": [2, 3], "tmm": [1, 2, 3, 4]}
+        if mode == "x86":
+            # 32-bit mode: eight registers of every kind, byte registers al..bl only
+            self.pools["gp"] = [3, 6, 7, 2, 1]
+            self.pools["gp8"] = [3, 2, 1, 0]
+        else:
+            self.pools["gp8"] = self.pools["gp"]
         if rng == "high":
             # EVEX-only vector registers (xmm16..31): the assembler must pick the EVEX form, query_features must notice
             self.pools["vec"] = [17, 18, 19, 20, 21, 22]
@@ -133,10 +139,13 @@ class Pools:
             # encoding admits (EVEX: 0..31, which exercises the high-register branch of query_features), any mask but k0
             gp = [1, 2, 3] if hi else [6, 7, 8, 9, 10, 11, 12, 13, 14, 15]
             vec = list(range(32)) if form["prefix"] == "EVEX" else list(range(16))
+            if mode == "x86":
+                gp, vec = [1, 2, 3, 6, 7], list(range(8))
             k = [2, 4, 6] if any(o["regIndexRel"] for o in form["ops"]) else [1, 2, 3, 4, 5, 6, 7]
             for name, p in (("gp", gp), ("vec", vec), ("k", k), ("mm", list(range(8))), ("tmm", list(range(8)))):
                 rng.shuffle(p)
                 self.pools[name] = p
+            self.pools["gp8"] = [x for x in self.pools["gp"] if x < 4] if mode == "x86" else self.pools["gp"]
         self.same = same
         self.next = {k: 0 for k in self.pools}
 
@@ -150,6 +159,8 @@ class Pools:
 
 
 def reg_class(rt):
+    if rt == "r8":
+        return "gp8"
     if rt in GP_TYPES:
         return "gp"
     if rt in ("xmm", "ymm", "zmm"):
@@ -157,21 +168,29 @@ def reg_class(rt):
     return rt
 
 
-def instantiate(form, choice, same, with_implicit, rng=None):
+def instantiate(form, choice, same, with_implicit, rng=None, mode="x64"):
     """returns (tokens, dbops) or None. choice: list of 'reg'|'mem'|'imm' per operand."""
-    pools = Pools(form, same, rng)
+    pools = Pools(form, same, rng, mode)
+    bq = "q" if mode == "x64" else "d"
     toks, dbops, ids = [], [], []
     ops = form["ops"]
     nmem = sum(1 for c in choice if c == "mem")
     for i, (o, c) in enumerate(zip(ops, choice)):
         lo, width = (o["rwxIndex"], o["rwxWidth"]) if o["rwxWidth"] and o["rwxWidth"] > 0 and o["rwxIndex"] >= 0 else (0, 0)
-        ov = READ_WIDTH_OVERRIDE.get((form["name"], form["opcode"].replace("REX.W ", "")), {})
-        if i in ov and not o["write"]:
-            width = ov[i]
-        elif i in ov:
-            width = 0        # read part narrower than the written part: only the access letters are judged
-        d = {"kind": 0, "gp": False, "size": 0, "read": o["read"], "write": o["write"], "lo": lo, "width": width, "follower": 0,
-             "runLen": 0, "rmChecked": False, "memAlt": [], "implicit": o["implicit"], "regspec": None}
+        rwidth = width
+        ov = dict(READ_WIDTH_OVERRIDE.get((form["name"], form["opcode"].replace("REX.W ", "")), {}))
+        # vector operands where the database gives the whole register but the SDM (and the host, see the execution differ) a part:
+        # punpckl* read the low half of both operands (MMX: 32 bits, SSE: 64 bits; a memory source is loaded in full);
+        # 256/512-bit vmovddup reads the even quadwords (not a contiguous range: not judged)
+        if form["name"] in ("punpcklbw", "punpcklwd", "punpckldq") and ops[0]["regType"] in ("mm", "xmm"):
+            half = 32 if ops[0]["regType"] == "mm" else 64
+            ov = {0: half, 1: half if c == "reg" or ops[0]["regType"] == "mm" else None}
+        if form["name"] == "vmovddup" and ops[0]["regType"] in ("ymm", "zmm"):
+            ov = {1: 0}
+        if ov.get(i) is not None:
+            rwidth = ov[i]
+        d = {"kind": 0, "gp": False, "size": 0, "read": o["read"], "write": o["write"], "lo": lo, "width": width, "rwidth": rwidth,
+             "follower": 0, "runLen": 0, "rmChecked": False, "memAlt": [], "implicit": o["implicit"], "regspec": None}
         rid = None
         if c == "reg":
             rt = o["regType"]
@@ -195,13 +214,13 @@ def instantiate(form, choice, same, with_implicit, rng=None):
             d.update(kind=1, gp=rt in GP_TYPES, size=size, regspec=o["reg"])
         elif c == "mem":
             size = o["memSize"] // 8 if o["memSize"] and o["memSize"] > 0 else 0
-            base = "q5"
+            base = bq + "5"
             if o["memSegment"]:
                 r = o["memRegOnly"]
                 if r in MEMREG:
-                    base = "q%d" % MEMREG[r]
+                    base = "%s%d" % (bq, MEMREG[r])
                 elif r in ("r64", "r32"):
-                    base = "q%d" % pools.take("gp")
+                    base = "%s%d" % (bq, pools.take("gp"))
                 else:
                     return None
             index = "-"
@@ -230,14 +249,14 @@ def instantiate(form, choice, same, with_implicit, rng=None):
     return toks, dbops
 
 
-def sibling_mem_sizes(form, siblings, choice, opidx):
+def sibling_mem_sizes(form, siblings, choice, opidx, mode="x64"):
     """memory sizes (bytes) s.t. a database form of the same name has operand `opidx` in memory of that size, the same access on
     every operand, and every other operand identical to the instantiated one"""
     out = set()
     ops = form["ops"]
     for g in siblings:
         gops = g["ops"]
-        if len(gops) != len(ops) or g["arch"] == "X86":
+        if len(gops) != len(ops) or g["arch"] == ("X86" if mode == "x64" else "X64"):
             continue
         go = gops[opidx]
         if not go["mem"] or go["memSegment"]:
@@ -261,7 +280,7 @@ def sibling_mem_sizes(form, siblings, choice, opidx):
     return sorted(out)
 
 
-def x86_queries(db, rng=None, limit=None):
+def x86_queries(db, rng=None, mode="x64"):
     """-> list of query dicts {line, form(index), dbops, variant, ...}"""
     forms = db["x86"]
     by_name = {}
@@ -269,7 +288,7 @@ def x86_queries(db, rng=None, limit=None):
         by_name.setdefault(f["name"], []).append(f)
     qs = []
     for fi, f in enumerate(forms):
-        if not eligible(f):
+        if not eligible(f, mode):
             continue
         ops = f["ops"]
         ch = [op_choices(o) for o in ops]
@@ -304,14 +323,16 @@ def x86_queries(db, rng=None, limit=None):
             for opts, extra in settings:
                 for with_impl in (True, False):
                     if same == "high":
+                        if mode == "x86":
+                            continue
                         inst = instantiate(f, choice, False, with_impl, "high")
                     elif same == "rand":
                         st = rng.getstate()
-                        inst = instantiate(f, choice, False, with_impl, rng)
+                        inst = instantiate(f, choice, False, with_impl, rng, mode)
                         if with_impl:
                             rng.setstate(st)       # the short form uses the same registers
                     else:
-                        inst = instantiate(f, choice, same, with_impl)
+                        inst = instantiate(f, choice, same, with_impl, None, mode)
                     if inst is None:
                         continue
                     toks, dbops = inst
@@ -322,10 +343,10 @@ def x86_queries(db, rng=None, limit=None):
                         kept = [i for i, o in enumerate(ops) if with_impl or not o["implicit"]]
                         for d, i in zip(dbops, kept):
                             if d["kind"] == 1:
-                                d["memAlt"] = sibling_mem_sizes(f, by_name[f["name"]], choice, i)
+                                d["memAlt"] = sibling_mem_sizes(f, by_name[f["name"]], choice, i, mode)
                     name = f["name"]
-                    line = "x x64 %s %s %s %s" % (name, opts, extra, " ".join(toks))
-                    qs.append({"line": line.strip(), "form": fi, "dbops": dbops, "implicit": with_impl,
+                    line = "x %s %s %s %s %s" % (mode, name, opts, extra, " ".join(toks))
+                    qs.append({"line": line.strip(), "form": fi, "mode": mode, "dbops": dbops, "implicit": with_impl,
                                "variant": "%s%s%s" % ("high" if same == "high" else "seeded" if same == "rand" else "same" if same else "distinct", "/mem" if "mem" in choice else "/reg",
                                                       ("/" + opts + extra) if (opts, extra) != ("-", "-") else ""),
                                "opts": opts, "extra": extra})
@@ -351,14 +372,16 @@ def parse_answer(ans):
     return out
 
 
-def prefix_class_of_bytes(hexs):
-    """(prefix class, opcode byte) of an encoding produced by the assembler (64-bit mode)"""
+def prefix_class_of_bytes(hexs, mode="x64"):
+    """(prefix class, opcode byte) of an encoding produced by the assembler"""
     b = bytes.fromhex(hexs)
     i = 0
     while i < len(b) and b[i] in LEGACY_PREFIXES:
         i += 1
     if i >= len(b):
         return "legacy", None
+    if mode == "x86" and b[i] in (0x62, 0xC4, 0xC5) and (i + 1 >= len(b) or (b[i + 1] & 0xC0) != 0xC0):
+        return "legacy", b[i]            # BOUND / LES / LDS in 32-bit mode
     if b[i] == 0x62:
         return "evex", b[i + 4] if i + 4 < len(b) else None
     if b[i] == 0xC5:
@@ -367,7 +390,7 @@ def prefix_class_of_bytes(hexs):
         return "vex", b[i + 3] if i + 3 < len(b) else None
     if b[i] == 0x8F and i + 1 < len(b) and (b[i + 1] & 0x1F) >= 8:
         return "xop", b[i + 3] if i + 3 < len(b) else None
-    if 0x40 <= b[i] <= 0x4F:
+    if mode == "x64" and 0x40 <= b[i] <= 0x4F:
         i += 1
     if i < len(b) and b[i] == 0x0F:
         i += 1
@@ -378,8 +401,8 @@ def prefix_class_of_bytes(hexs):
     return "legacy", b[i] if i < len(b) else None
 
 
-def encoding_matches(form, hexs):
-    cls, opb = prefix_class_of_bytes(hexs)
+def encoding_matches(form, hexs, mode="x64"):
+    cls, opb = prefix_class_of_bytes(hexs, mode)
     if cls != PREFIX_CLASS.get(form["prefix"], "?") or opb is None or not form["opbyte"]:
         return False
     want = int(form["opbyte"], 16)
@@ -397,14 +420,14 @@ def make_row(q, form, ans, featids, flagbits):
         if v in ("W", "X", "U", "0", "1"):
             dbw |= flagbits[k]
     enc = ans.get("e", "!")
-    feat_checked = (not enc.startswith("!")) and encoding_matches(form, enc)
+    feat_checked = (not enc.startswith("!")) and encoding_matches(form, enc, q.get("mode", "x64"))
     # AVX512_VL is listed for every member of an xmm/ymm/zmm group; architecturally only 128/256-bit EVEX forms need it
     uses_zmm = any(o["regType"] == "zmm" or o["vsibReg"] == "zmm" for o in form["ops"])
     ext = sorted(featids[e] for e in form["ext"] if e in featids and not (e == "AVX512_VL" and uses_zmm))
-    dbops = tuple((d["kind"], d["gp"], d["size"], d["read"], d["write"], d["lo"], d["width"], d["follower"], d["runLen"], d["rmChecked"],
-                   tuple(d["memAlt"])) for d in q["dbops"])
+    dbops = tuple((d["kind"], d["gp"], d["size"], d["read"], d["write"], d["lo"], d["width"], d.get("rwidth", d["width"]), d["follower"],
+                   d["runLen"], d["rmChecked"], tuple(d["memAlt"])) for d in q["dbops"])
     imp = tuple((featids[a], featids[b]) for a, b in FEATURE_IMPLIES)
-    return (True, dbops, dbr, dbw, feat_checked, tuple(ext), imp, tuple(ans["oplist"]), int(ans["rf"], 16), int(ans["wf"], 16),
+    return (q.get("mode", "x64") == "x64", dbops, dbr, dbw, feat_checked, tuple(ext), imp, tuple(ans["oplist"]), int(ans["rf"], 16), int(ans["wf"], 16),
             tuple(ans.get("feat", [])))
 
 
@@ -479,8 +502,8 @@ def a64_queries(db):
 
 
 def make_a64_row(q, ans):
-    dbops = tuple((d["kind"], d["gp"], d["size"], d["read"], d["write"], d["lo"], d["width"], d["follower"], d["runLen"], d["rmChecked"],
-                   tuple(d["memAlt"])) for d in q["dbops"])
+    dbops = tuple((d["kind"], d["gp"], d["size"], d["read"], d["write"], d["lo"], d["width"], d.get("rwidth", d["width"]), d["follower"],
+                   d["runLen"], d["rmChecked"], tuple(d["memAlt"])) for d in q["dbops"])
     return (False, dbops, 0, 0, False, (), (), tuple(ans["oplist"]), 0, 0, ())
 
 
@@ -494,8 +517,9 @@ def lb(b):
 
 def lean_row(r):
     mode64, dbops, dbr, dbw, fc, ext, imp, iops, ir, iw, feat = r
-    ds = ", ".join("⟨%d, %s, %d, %s, %s, %d, %d, %d, %d, %s, [%s]⟩" % (k, lb(gp), sz, lb(rd), lb(wr), lo, wd, fo, rl, lb(rc), ", ".join(map(str, ma)))
-                   for (k, gp, sz, rd, wr, lo, wd, fo, rl, rc, ma) in dbops)
+    ds = ", ".join("⟨%d, %s, %d, %s, %s, %d, %d, %d, %d, %d, %s, [%s]⟩" % (k, lb(gp), sz, lb(rd), lb(wr), lo, wd, rwd, fo, rl, lb(rc),
+                                                                            ", ".join(map(str, ma)))
+                   for (k, gp, sz, rd, wr, lo, wd, rwd, fo, rl, rc, ma) in dbops)
     is_ = ", ".join("⟨0x%x, %d, %d, %d, 0x%x, 0x%x, 0x%x⟩" % o for o in iops)
     return "⟨%s, [%s], 0x%x, 0x%x, %s, [%s], [%s], [%s], 0x%x, 0x%x, [%s]⟩" % (
         lb(mode64), ds, dbr, dbw, lb(fc), ", ".join(map(str, ext)), ", ".join("(%d, %d)" % p for p in imp), is_, ir, iw,
@@ -509,8 +533,8 @@ def csv(xs):
 def monitor_line(r):
     mode64, dbops, dbr, dbw, fc, ext, imp, iops, ir, iw, feat = r
     w = ["mon", str(int(mode64)), str(len(dbops))]
-    for (k, gp, sz, rd, wr, lo, wd, fo, rl, rc, ma) in dbops:
-        w += [str(k), str(int(gp)), str(sz), str(int(rd)), str(int(wr)), str(lo), str(wd), str(fo), str(rl), str(int(rc)), csv(ma)]
+    for (k, gp, sz, rd, wr, lo, wd, rwd, fo, rl, rc, ma) in dbops:
+        w += [str(k), str(int(gp)), str(sz), str(int(rd)), str(int(wr)), str(lo), str(wd), str(rwd), str(fo), str(rl), str(int(rc)), csv(ma)]
     w += ["%x" % dbr, "%x" % dbw, str(int(fc)), csv(ext), csv([x for p in imp for x in p]), str(len(iops))]
     for o in iops:
         w += ["%x" % o[0], str(o[1]), str(o[2]), str(o[3]), "%x" % o[4], "%x" % o[5], "%x" % o[6]]
@@ -524,7 +548,7 @@ CHUNK = 200
 def render_rows(rows, modname, tablename, pred="rowOk"):
     """rows: list of distinct canonical rows -> dict filename -> content. One file per 4 chunks keeps every file fast."""
     files = {}
-    per_file = 4 * CHUNK
+    per_file = 2 * CHUNK
     nfiles = max(1, (len(rows) + per_file - 1) // per_file)
     imports = []
     for fno in range(nfiles):
